@@ -288,7 +288,10 @@ def run_check(tier, seed):
                 scen, n, rank, k = poss[rng.below(len(poss))]
                 others = [c for c in io_classes if c not in std3]
                 extra = [c for c in EXTRA_CLASSES.get(key[0].split('.')[0], []) if c in clsval and key[2] == 'open' and min(rank, 1) == 0]
-                for cn in std3 + [rng.choice([c for c in others if c not in extra])] + extra:
+                third = [rng.choice([c for c in others if c not in extra])]
+                if rng.below(3) != 0:
+                    third = []          # the seeded third class goes to a third of the keys (quick-tier time budget)
+                for cn in std3 + third + extra:
                     plan.append((scen, n, rank, k, cn, key))
         log('[S4] %d programs, %d transfer-call positions, %d distinct (site, path, API, ranks) keys, %d injections planned'
             % (len(base), positions, len(seen_keys), len(plan)))
@@ -446,8 +449,10 @@ def run_check(tier, seed):
         V.cov['rule'] = ('%d small PnetCDF programs (create/enddef, enddef inside close, fill mode + fill_var_rec, blocking put/get collective and independent, '
                          'record puts (numrecs), sync/close from independent mode, redef from independent mode, redef with header growth / new fixed / new record variable '
                          '(data movement), iput+iget wait_all (mixed, puts only, gets only, independent wait), data-mode put_att/rename_*, open+read, zero-length collective '
-                         'participation, collective header I/O (romio_no_indep_rw)) on 1 and 2 ranks; baseline run enumerates every MPI-IO data-transfer call; '
-                         'quick: one position per distinct (site row, call path, API, ranks, root/non-root) x {MPI_ERR_IO, MPI_ERR_NO_SPACE, one seeded class}; '
+                         'participation, collective header I/O (romio_no_indep_rw); flexible put/get with vector/indexed/resized memory types with and without conversion / byte swap '
+                         '(packed and unpacked buffers, independent, collective, 1 process), waits over several requests with non-adjacent buffers, bput, intra-node aggregation, '
+                         'vard, varn, interleaved requests, ncmpi__enddef, copy_att in data mode, abort) on 1 and 2 ranks; baseline run enumerates every MPI-IO data-transfer call; '
+                         'quick: one position per distinct (site row, call path, API, ranks, root/non-root) x {MPI_ERR_IO, MPI_ERR_NO_SPACE} + one seeded class for a seeded third of the keys; '
                          'thorough: every position x %d classes. Every injection fires in the real library, so every evaluation is non-trivial; '
                          'distinct = distinct (site row, call path, API call, NC-code kind of the class, ranks, root/non-root) or (site, API, hang/crash)' % (len(SCENARIOS), len(io_classes)))
         V.cov['distribution'] = dict(dist)
